@@ -172,9 +172,15 @@ pub mod non_blocking {
                         .danger_accept_invalid_certs(true);
                 }
                 for data in &self.0.ca_certs {
-                    let cert =
-                        reqwest::Certificate::from_pem(data).or_else(|_| reqwest::Certificate::from_der(data))?;
-                    builder = builder.add_root_certificate(cert);
+                    // reqwest defers PEM parsing with the rustls backend, so `from_pem` never fails there
+                    // and a DER certificate was silently ignored: parse eagerly, fall back to DER
+                    let certs = match reqwest::Certificate::from_pem_bundle(data) {
+                        Ok(certs) if !certs.is_empty() => certs,
+                        _ => vec![reqwest::Certificate::from_der(data)?],
+                    };
+                    for cert in certs {
+                        builder = builder.add_root_certificate(cert);
+                    }
                 }
             }
 
